@@ -592,15 +592,18 @@ pub fn run_c16(ctx: &Ctx) -> i32 {
             }
         });
     }
-    // (b) public prover over a fake inner (N=1): sentinel = block hash 3..7 and exit slots 8..18
-    {
-        let n = 1usize;
+    // (b) public prover over a fake inner (N=1,2[,3]): sentinel = block hash 3..7 and ALL 2N exit slots 8..8+10N
+    for n in ctx.tier.pick(vec![1usize, 2], vec![1usize, 2, 3]) {
         let fake = FakeLeaf::build(priv_pi_len(n));
-        let sentinel: Vec<usize> = (3..7).chain(8..18).collect();
+        let sentinel: Vec<usize> = (3..7).chain(8..8 + 10 * n).collect();
         let mut jobs: Vec<(Vec<(usize, u64)>, bool)> = vec![(vec![], false), (vec![], true)];
         for pos in 0..priv_pi_len(n) {
             for v in [1u64, P - 1] {
                 if (1..=3).contains(&pos) && v >= (1 << 32) {
+                    continue;
+                }
+                // larger shapes in the quick tier: every sentinel position once, other positions sampled
+                if n >= 2 && ctx.tier == crate::util::Tier::Quick && (v != 1 || (!sentinel.contains(&pos) && pos % 4 != 0)) {
                     continue;
                 }
                 jobs.push((vec![(pos, v)], false));
@@ -611,7 +614,7 @@ pub fn run_c16(ctx: &Ctx) -> i32 {
                 return;
             }
             let mut pis = vec![F::ZERO; priv_pi_len(n)];
-            pis[0] = f(2);
+            pis[0] = f(2 * n as u64);
             for (p, v) in devs {
                 pis[*p] = f(*v);
             }
@@ -623,9 +626,10 @@ pub fn run_c16(ctx: &Ctx) -> i32 {
             let jp: Vec<u64> = proof.public_inputs.iter().map(|x| u(*x)).collect();
             let sentinel_ok = sentinel.iter().all(|&i| jp[i] == 0);
             rep.eval();
-            rep.nontrivial(&("inner-direct", devs.clone(), *tamper));
-            let r = guarded(|| PublicBatchProver::new(wormhole_public_batch_circuit_config(), fake.data.common.clone(), &fake.data.verifier_only, 2, 1, proof.clone()).is_ok());
-            let case = json!({"entry": "PublicBatchProver::new", "template_pis": jp, "tampered": tamper});
+            rep.nontrivial(&("inner-direct", n, devs.clone(), *tamper));
+            rep.count(&format!("inner_templates_judged_N{n}"));
+            let r = guarded(|| PublicBatchProver::new(wormhole_public_batch_circuit_config(), fake.data.common.clone(), &fake.data.verifier_only, 2, n, proof.clone()).is_ok());
+            let case = json!({"entry": "PublicBatchProver::new", "n": n, "template_pis": jp, "tampered": tamper});
             match r {
                 Err(p) => rep.violation("template / PublicBatchProver::new panics", &p, case),
                 Ok(true) => {
